@@ -19,7 +19,7 @@ func init() {
 			"index in the parsed list, stamps the file name on every policy (loop without early exit), and returns no partial set on error; R20.4 the text encoder sorts ids " +
 			"before writing; R20.5 Policy and PolicySet carry no other mutable field in which compiled state could go stale; R20.6 document order does not depend on goroutine completion order; " +
 			"R20.7 an iterator handed out by the set reads the set's state when it runs, not when it was made (the decoders replace the map, so a captured map is a stale copy); R20.8 a decoder " +
-			"touches the receiver only on paths that cannot end in an error (a rejected document leaves the set as it was). Not decided: Go's own map semantics.",
+			"touches the receiver only on paths that cannot end in an error (a rejected document leaves the set as it was). Not decided: Go's own map semantics. R20.9 the policy-set JSON emitter takes string escaping from encoding/json.",
 		Run: runC20,
 	})
 }
